@@ -289,4 +289,72 @@ theorem reply_no_kills (st : Static) (c : Ctx) (svc text : Bytes) (cli : XqCli) 
   refine ⟨_, rfl, rfl, ?_⟩
   simp [finishReq, Ctx.emit, updReq, sendReq, hb]
 
+/-! ## C07: a line for one client leaves every other client's record alone -/
+
+theorem onReq_others {s s' : State} {req? : Option Req} {c : String} {ev : Ev} {out : List Bytes} (hi : Inv s)
+    (h : onReq s req? c ev = .ok (s', out)) (id : Int) (hne : ∀ r, req? = some r → id ≠ r.client) :
+    findReq s'.reqs id = findReq s.reqs id := by
+  unfold onReq at h
+  cases req? with
+  | none => simp only [garbage, pure, Except.pure, Except.ok.injEq, Prod.mk.injEq] at h; obtain ⟨rfl, _⟩ := h; rfl
+  | some r =>
+    exact withReq_others (r := r) (fun c' hc => (reqEvent_spec _ (static_wf s hi.deps) (ctx0 s r) _ _ hc).1) h id (hne r rfl)
+
+theorem dropReq_others {s s' : State} {req? : Option Req} {c : String} {out : List Bytes}
+    (h : dropReq s req? c = .ok (s', out)) (id : Int) (hne : ∀ r, req? = some r → id ≠ r.client) :
+    findReq s'.reqs id = findReq s.reqs id := by
+  unfold dropReq at h
+  cases req? with
+  | none => simp only [garbage, pure, Except.pure, Except.ok.injEq, Prod.mk.injEq] at h; obtain ⟨rfl, _⟩ := h; rfl
+  | some r =>
+    exact withReq_others (f := fun ctx => pure (finishReq ctx)) (fun c' hc => by
+      simp only [pure, Except.pure, Except.ok.injEq] at hc; subst hc; rfl) h id (hne r rfl)
+
+/-- a reply changes at most the request its (validated) tag names -/
+theorem onReply_others {s s' : State} {l : Line} {isX : Bool} {out : List Bytes}
+    (h : onReply s l isX = .ok (s', out)) (id : Int)
+    (hne : ∀ r, validateRequest s ((arg l 2).getD []) = some r → id ≠ r.client) :
+    findReq s'.reqs id = findReq s.reqs id := by
+  unfold onReply at h
+  split at h
+  · simp only [pure, Except.pure, Except.ok.injEq, Prod.mk.injEq] at h; obtain ⟨rfl, _⟩ := h; rfl
+  · split at h
+    · simp only [pure, Except.pure, Except.ok.injEq, Prod.mk.injEq] at h; obtain ⟨rfl, _⟩ := h; rfl
+    · rename_i r hv
+      exact withReq_others (r := r) (fun c' hc => (xqReply_spec _ (ctx0 s r) _ _ _ hc).1) h id (hne r hv)
+
+/-- an announcement touches only the announced id -/
+theorem find_insertReq (reqs : List Req) (r : Req) (id : Int) (hne : id ≠ r.client) :
+    findReq (insertReq r reqs) id = findReq reqs id := by
+  unfold findReq
+  induction reqs with
+  | nil =>
+    have : (r.client == id) = false := by simp; omega
+    simp [insertReq, List.find?_cons, this]
+  | cons q qs ih =>
+    unfold insertReq
+    have hr : (r.client == id) = false := by simp; omega
+    split
+    · simp only [List.find?_cons, hr]
+    · split
+      · rename_i _ he
+        have he' : r.client = q.client := by simpa using he
+        have hq : (q.client == id) = false := by simp; omega
+        simp only [List.find?_cons, hr, hq]
+      · simp only [List.find?_cons]
+        rw [ih]
+
+theorem newClient_others {s s' : State} {id0 : Int} {a p : Bytes} {out : List Bytes}
+    (h : newClient s id0 a p = .ok (s', out)) (id : Int) (hne : id ≠ id0) :
+    findReq s'.reqs id = findReq s.reqs id := by
+  unfold newClient at h
+  cases hp : ptonC a false with
+  | error e => simp [hp, bind, Except.bind] at h
+  | ok r =>
+    simp only [hp, bind, Except.bind, pure, Except.pure, Except.ok.injEq, Prod.mk.injEq] at h
+    obtain ⟨rfl, _⟩ := h
+    dsimp only
+    apply find_insertReq
+    split <;> exact hne
+
 end Iauthd.Proto
